@@ -128,11 +128,26 @@ func extractStreamer(root string) (string, map[string]any, error) {
 	endOK := leSrc == "{ if !s.withAdditionalMessages { return } if err == nil { s.loggers.Log(s.messageOnSuccess) } else { s.loggers.LogError(s.messageOnFailure, err) } }"
 	ls := p.method("subprocessMessaging", "LogStart")
 	lsOK := ls != nil && strings.Join(strings.Fields(p.src(ls.Body)), " ") == "{ if s.withAdditionalMessages { s.loggers.Log(s.messageOnProcessStart) } }"
+	// ---- Output…(): `err = p.Execute()` immediately followed by `output = stringLogger.GetLogContent()`
+	outOK := false
+	if of := p.funcDecl("OutputAsWithEnvironment"); of != nil {
+		for i, st := range of.Body.List {
+			if strings.Join(strings.Fields(p.src(st)), " ") == "err = p.Execute()" && i+1 < len(of.Body.List) {
+				outOK = strings.Join(strings.Fields(p.src(of.Body.List[i+1])), " ") == "output = stringLogger.GetLogContent()"
+			}
+		}
+		for _, name := range []string{"Output", "OutputWithEnvironment", "OutputAs"} {
+			f := p.funcDecl(name)
+			if f == nil || len(f.Body.List) != 1 || !strings.Contains(p.src(f.Body.List[0]), "return Output") {
+				outOK = false
+			}
+		}
+	}
 	lean := fmt.Sprintf("import GoUtils.Model.Streamer\nnamespace GoUtils.Generated.Streamer\nopen GoUtils.Streamer\ndef ok : Bool := true\n"+
 		"def write : WriteFacts := { splitsEachChunkAlone := %s, dropsEmpty := %s }\n"+
-		"def exec : ExecFacts := { startBeforeRun := %s, endAfterRun := %s, endReflectsRunError := %s, startIsOneMessage := %s }\nend GoUtils.Generated.Streamer\n",
-		leanBool(splitsAlone), leanBool(dropsEmpty), leanBool(iStart < iRun), leanBool(iRun < iEnd), leanBool(endOK), leanBool(lsOK))
-	return lean, map[string]any{"splitsEachChunkAlone": splitsAlone, "dropsEmpty": dropsEmpty, "startBeforeRun": iStart < iRun, "endAfterRun": iRun < iEnd,
+		"def exec : ExecFacts := { startBeforeRun := %s, endAfterRun := %s, endReflectsRunError := %s, startIsOneMessage := %s, outputReadsLogWhateverTheStatus := %s }\nend GoUtils.Generated.Streamer\n",
+		leanBool(splitsAlone), leanBool(dropsEmpty), leanBool(iStart < iRun), leanBool(iRun < iEnd), leanBool(endOK), leanBool(lsOK), leanBool(outOK))
+	return lean, map[string]any{"outputReadsLogWhateverTheStatus": outOK, "splitsEachChunkAlone": splitsAlone, "dropsEmpty": dropsEmpty, "startBeforeRun": iStart < iRun, "endAfterRun": iRun < iEnd,
 		"endReflectsRunError": endOK, "startIsOneMessage": lsOK}, nil
 }
 
